@@ -368,7 +368,10 @@ EXTRA_TEXT = {
            'task kinds x policies, policy pairs) paused at every point and '
            'resumed at every later point with the policy oracles active.',
     'C11': ' The same stop repeated on the finished execution; results '
-           'that arrive after the stop and cannot be handled.',
+           'that arrive after the stop and cannot be handled; every policy '
+           'program of C08 stopped at every point (wake-ups of delayed '
+           'tasks, wait-after completions, timeout timers, remaining '
+           'with-items iterations as late events).',
     'C12': ' Reruns inside the children of a with-items task, without and '
            'with a concurrency limit.',
     'C14': ' Workbook presentation variants (a comment / blank line at '
